@@ -406,39 +406,42 @@ func TestC03(t *testing.T) {
 		}
 		Col.MarkExhaustive("every BE/LE primitive instantiation over 4 prefix types x 10 element types (fixed distinguishing value each)")
 	})
-	t.Run("primitives", func(t *testing.T) {
-		CheckProp(t, "C03", "c03prim", "primitives", genC03Prim, oracleC03Prim)
-	})
-	for _, tn := range MyTypes() {
+	RunProps(t, rpC03(MyTypes()))
+}
+
+func init() { RapidProps["C03"] = func() []RProp { return rpC03(TypeNames) } }
+
+func rpC03(types []string) (out []RProp) {
+	out = append(out, MkProp("C03", "c03prim", "primitives", genC03Prim, oracleC03Prim))
+	for _, tn := range types {
 		tn := tn
-		t.Run(tn, func(t *testing.T) {
-			CheckProp(t, "C03", "c03msg", tn, func(rt *rapid.T) *CaseValue {
-				o := DefaultOpts(Arbitrary)
-				o.NoAbsent = true
-				o.BigProb, o.HugeProb, o.HugeObj = 0, 0, 0 // sizes do not matter for byte order
-				v, ft := GenValue(rt, tn, o)
-				c := &CaseValue{Type: tn, V: v}
-				if ckFieldName(Types[tn]) != "" && rapid.IntRange(0, 4).Draw(rt, "noservice") == 0 {
-					// the frame's checksum service is not registered: the caller's value goes out, in the protocol's byte order
-					c.Pre = []PreOp{{Kind: "unreg", Algo: Types[tn].Fields[Types[tn].FieldIndex(ckFieldName(Types[tn]))].Algo}}
-					Col.Class("frame-without-its-checksum-service", 1)
-				}
-				a, b := Render(v, nil), Render(v, &RenderOpts{FlipEndian: true})
-				nt := !bytes.Equal(a.Bytes, b.Bytes)
-				cls := []string{"msg", "module:" + Types[tn].Module}
-				if nt {
-					cls = append(cls, "orders-differ")
-				}
-				if ft.ListNot1 > 0 {
-					cls = append(cls, "msg-with-list")
-				}
-				Col.Case(Hash64([]byte(tn), a.Bytes), nt, cls...)
-				Col.Program(tn)
-				if nt && Col.WantSample("msg") && len(a.Bytes) < 200 {
-					Col.Sample("msg", map[string]any{"type": tn, "bytes": hexClip(a.Bytes), "endian": fmt.Sprint(map[bool]string{true: "LE", false: "BE"}[Types[tn].LE])})
-				}
-				return c
-			}, oracleC03Msg)
-		})
+		out = append(out, MkProp("C03", "c03msg", tn, func(rt *rapid.T) *CaseValue {
+			o := DefaultOpts(Arbitrary)
+			o.NoAbsent = true
+			o.BigProb, o.HugeProb, o.HugeObj = 0, 0, 0 // sizes do not matter for byte order
+			v, ft := GenValue(rt, tn, o)
+			c := &CaseValue{Type: tn, V: v}
+			if ckFieldName(Types[tn]) != "" && rapid.IntRange(0, 4).Draw(rt, "noservice") == 0 {
+				// the frame's checksum service is not registered: the caller's value goes out, in the protocol's byte order
+				c.Pre = []PreOp{{Kind: "unreg", Algo: Types[tn].Fields[Types[tn].FieldIndex(ckFieldName(Types[tn]))].Algo}}
+				Col.Class("frame-without-its-checksum-service", 1)
+			}
+			a, b := Render(v, nil), Render(v, &RenderOpts{FlipEndian: true})
+			nt := !bytes.Equal(a.Bytes, b.Bytes)
+			cls := []string{"msg", "module:" + Types[tn].Module}
+			if nt {
+				cls = append(cls, "orders-differ")
+			}
+			if ft.ListNot1 > 0 {
+				cls = append(cls, "msg-with-list")
+			}
+			Col.Case(Hash64([]byte(tn), a.Bytes), nt, cls...)
+			Col.Program(tn)
+			if nt && Col.WantSample("msg") && len(a.Bytes) < 200 {
+				Col.Sample("msg", map[string]any{"type": tn, "bytes": hexClip(a.Bytes), "endian": fmt.Sprint(map[bool]string{true: "LE", false: "BE"}[Types[tn].LE])})
+			}
+			return c
+		}, oracleC03Msg))
 	}
+	return
 }
